@@ -2,16 +2,389 @@ package main
 
 import (
 	"encoding/json"
+	"fmt"
+	"sort"
+	"strings"
+	"time"
+
+	"github.com/pion/webrtc/v4"
 
 	"verif/core"
+	"verif/fwd"
+	"verif/sig"
 )
 
-// Sub-check (b), signalling messages: placeholder, replaced by the signalling
-// explorer.  Contract with main.go: runSignalling is called in the coordinator
-// (isCoordinator()) and in every shard process; in a shard it must return
-// immediately unless shardPart() == "signalling".  Shards are started with
-// core.RunShards(res, n, []string{"signalling"}, onCrash).
-func runSignalling(res *core.Result) {}
+var sigOpus = fwd.Opus
+
+// Sub-check (b), signalling messages (Engine D): every message type with
+// each field absent / of the wrong JSON type / empty / naming an unknown id /
+// huge, in every membership state of the actor (never joined, join refused
+// for each cause, joined, left, kicked, in another group, permission revoked,
+// publishing, subscribed), as single messages (quick) and as sequences of two
+// (thorough), through the real JSON decoder and handleClientMessage /
+// handleAction.  Oracle: no panic; only the sender's connection may be
+// closed.
+//
+// Contract with main.go: runSignalling is called in the coordinator and in
+// every shard process; in a shard it returns immediately unless shardPart()
+// == "signalling".
+
+type sigCase struct {
+	Role   string   `json:"role"`
+	Prefix string   `json:"prefix"`
+	Msgs   []string `json:"msgs"` // raw JSON
+}
+
+// base valid messages (actor is c0)
+func sigBase() []map[string]any {
+	off := sig.OfferSDP("a")
+	return []map[string]any{
+		{"type": "handshake", "version": []any{"2"}, "id": "c0"},
+		{"type": "join", "kind": "join", "group": "g", "username": "speaker", "password": "p", "data": map[string]any{"k": "v"}},
+		{"type": "join", "kind": "leave", "group": "g"},
+		{"type": "request", "request": map[string]any{"": []any{"audio", "video"}, "camera": []any{"video-low"}}},
+		{"type": "requestStream", "id": "s2", "request": []any{"audio"}},
+		{"type": "offer", "id": "s1", "label": "camera", "source": "c0", "sdp": off, "replace": "s0"},
+		{"type": "answer", "id": "s2", "sdp": off},
+		{"type": "renegotiate", "id": "s2"},
+		{"type": "close", "id": "s1"},
+		{"type": "abort", "id": "s2"},
+		{"type": "ice", "id": "s1", "candidate": map[string]any{"candidate": "candidate:1 1 UDP 1 192.0.2.1 1 typ host", "sdpMid": "0", "sdpMLineIndex": 0}},
+		{"type": "chat", "source": "c0", "dest": "c2", "value": "hi", "kind": "me", "id": "m1", "noecho": true},
+		{"type": "usermessage", "kind": "x", "source": "c0", "dest": "c2", "value": map[string]any{"a": 1}},
+		{"type": "groupaction", "kind": "clearchat", "source": "c0", "value": map[string]any{"id": "m1", "userId": "c2"}},
+		{"type": "groupaction", "kind": "lock", "source": "c0", "value": "msg"},
+		{"type": "groupaction", "kind": "unlock", "source": "c0"},
+		{"type": "groupaction", "kind": "record", "source": "c0"},
+		{"type": "groupaction", "kind": "unrecord", "source": "c0"},
+		{"type": "groupaction", "kind": "subgroups", "source": "c0"},
+		{"type": "groupaction", "kind": "setdata", "source": "c0", "value": map[string]any{"k": "v", "x": nil}},
+		{"type": "groupaction", "kind": "maketoken", "source": "c0", "value": map[string]any{"group": "g", "permissions": []any{"present"}, "expires": "2030-01-01T02:00:00Z", "not-before": 1000.0, "username": "u"}},
+		{"type": "groupaction", "kind": "edittoken", "source": "c0", "value": map[string]any{"token": "tok-g", "expires": 3600000.0}},
+		{"type": "groupaction", "kind": "listtokens", "source": "c0"},
+		{"type": "groupaction", "kind": "nonsense", "source": "c0"},
+		{"type": "useraction", "kind": "op", "source": "c0", "dest": "c2"},
+		{"type": "useraction", "kind": "unpresent", "source": "c0", "dest": "c2"},
+		{"type": "useraction", "kind": "identify", "source": "c0", "dest": "c2"},
+		{"type": "useraction", "kind": "setdata", "source": "c0", "dest": "c0", "value": map[string]any{"k": "v", "x": nil}},
+		{"type": "useraction", "kind": "nonsense", "source": "c0", "dest": "c2"},
+		{"type": "ping"},
+		{"type": "pong"},
+		{"type": "nonsense"},
+		{},
+	}
+}
+
+var wrongValues = []any{nil, 5.0, true, "", "zzz", []any{}, []any{5.0}, []any{"x"}, map[string]any{}, map[string]any{"": 5.0}, map[string]any{"": []any{5.0}}, map[string]any{"": nil}}
+
+// sigAlphabet derives the ill-typed variants of every base message.
+func sigAlphabet() []string {
+	seen := map[string]bool{}
+	var out []string
+	add := func(m any) {
+		b, err := json.Marshal(m)
+		if err != nil {
+			return
+		}
+		if !seen[string(b)] {
+			seen[string(b)] = true
+			out = append(out, string(b))
+		}
+	}
+	huge := strings.Repeat("A", 20000)
+	for _, base := range sigBase() {
+		add(base)
+		keys := make([]string, 0, len(base))
+		for k := range base {
+			keys = append(keys, k)
+		}
+		sort.Strings(keys)
+		for _, k := range keys {
+			if k == "type" || k == "kind" {
+				continue
+			}
+			cp := func() map[string]any {
+				c := map[string]any{}
+				for kk, vv := range base {
+					c[kk] = vv
+				}
+				return c
+			}
+			c := cp()
+			delete(c, k)
+			add(c)
+			for _, v := range wrongValues {
+				c := cp()
+				c[k] = v
+				add(c)
+			}
+			c = cp()
+			c[k] = huge
+			add(c)
+			// nested maps: mutate each member too
+			if inner, ok := base[k].(map[string]any); ok {
+				for ik := range inner {
+					for _, v := range wrongValues {
+						c := cp()
+						in := map[string]any{}
+						for a, b := range inner {
+							in[a] = b
+						}
+						in[ik] = v
+						c[k] = in
+						add(c)
+					}
+					c := cp()
+					in := map[string]any{}
+					for a, b := range inner {
+						in[a] = b
+					}
+					in[ik] = 1e308
+					c[k] = in
+					add(c)
+					c2 := cp()
+					in2 := map[string]any{}
+					for a, b := range inner {
+						in2[a] = b
+					}
+					in2[ik] = -1e308
+					c2[k] = in2
+					add(c2)
+				}
+			}
+		}
+	}
+	// malformed JSON and odd top-level values
+	for _, raw := range []string{``, `{`, `[]`, `5`, `null`, `"x"`, `{"type":5}`, `{"type":"chat","value":` + strings.Repeat("[", 2000) + strings.Repeat("]", 2000) + `}`} {
+		if !seen[raw] {
+			seen[raw] = true
+			out = append(out, raw)
+		}
+	}
+	return out
+}
+
+// extra prefixes with media state on top of sig.Prefixes
+var sigPrefixes = append(append([]string{}, sig.Prefixes...), "publishing", "subscribed")
+
+func sigSetup(role, prefix string) (*sig.World, string) {
+	switch prefix {
+	case "publishing", "subscribed":
+		w, pan := sig.Setup(role, "joined", false)
+		if pan != "" {
+			return w, pan
+		}
+		do := func(o sig.Obs) {
+			if o.Panic != "" && pan == "" {
+				pan = o.Panic
+			}
+			if p := w.Settle(nil); p != "" && pan == "" {
+				pan = p
+			}
+		}
+		if prefix == "publishing" {
+			do(w.Send(0, sig.Msg{"type": "offer", "id": "s1", "label": "camera", "source": "c0", "sdp": sig.OfferSDP("a")}))
+			do(w.Send(0, sig.Msg{"type": "offer", "id": "s0", "label": "screenshare", "source": "c0", "sdp": sig.OfferSDP("v")}))
+		} else {
+			do(w.Send(0, sig.Msg{"type": "request", "request": map[string]any{"": []any{"audio", "video"}}}))
+			do(w.Send(2, sig.Msg{"type": "offer", "id": "s2", "label": "camera", "source": "c2", "username": "bob", "sdp": sig.OfferSDP("a")}))
+			w.Clients[2].V.Track("s2", webrtc.RTPCodecTypeAudio, "audio0", "", sigOpus)
+			do(sig.Obs{})
+		}
+		return w, pan
+	}
+	return sig.Setup(role, prefix, false)
+}
+
+func sigRun(c sigCase) (string, string) {
+	w, pan := sigSetup(c.Role, c.Prefix)
+	defer w.Close()
+	if pan != "" {
+		return "setup", pan
+	}
+	for i, raw := range c.Msgs {
+		kick := strings.Contains(raw, `"kick"`)
+		o := w.SendRaw(0, []byte(raw))
+		if o.Panic != "" {
+			return fmt.Sprintf("message %d", i), o.Panic
+		}
+		if p := w.Settle(nil); p != "" {
+			return fmt.Sprintf("settling after message %d", i), p
+		}
+		if !kick {
+			for k := 1; k < len(w.Clients); k++ {
+				if w.Clients[k].V.Closed {
+					return fmt.Sprintf("message %d", i), fmt.Sprintf("BYSTANDER-CLOSED c%d", k)
+				}
+			}
+		}
+	}
+	return "", ""
+}
+
+// msgClass names a raw message by its type/kind and the mutated field.
+func msgClass(raw string) string {
+	var m map[string]any
+	if json.Unmarshal([]byte(raw), &m) != nil {
+		return "malformed-json"
+	}
+	t, _ := m["type"].(string)
+	k, _ := m["kind"].(string)
+	if k != "" {
+		return t + "/" + k
+	}
+	return t
+}
+
+func sigViolation(c sigCase, where, pan string) core.Violation {
+	cls := msgClass(c.Msgs[len(c.Msgs)-1])
+	state := c.Prefix
+	if strings.HasPrefix(state, "refused") {
+		state = "join-refused"
+	}
+	if strings.HasPrefix(pan, "BYSTANDER-CLOSED") {
+		return core.Violation{Signature: "C12/bystander-closed/signalling/" + cls + "/" + state,
+			What:   fmt.Sprintf("signalling: actor %s in state %s sent %s and the connection of another client was closed (%s)", c.Role, c.Prefix, trunc(strings.Join(c.Msgs, " ; "), 600), pan),
+			Replay: map[string]any{"family": "signalling", "case": c}}
+	}
+	return core.Violation{Signature: "C12/panic/signalling/" + sig.PanicSite(pan) + "/" + cls + "/" + state,
+		What:   fmt.Sprintf("signalling: actor %s in state %s, %s, messages %s: %s", c.Role, c.Prefix, where, trunc(strings.Join(c.Msgs, " ; "), 600), pan),
+		Replay: map[string]any{"family": "signalling", "case": c}}
+}
+
+func trunc(s string, n int) string {
+	if len(s) > n {
+		return s[:n] + "…"
+	}
+	return s
+}
+
+func runSignalling(res *core.Result) {
+	if isCoordinator() {
+		if !core.Want("signalling") {
+			return
+		}
+		core.RunShards(res, core.NCPU(), []string{"signalling"}, func(shard int, out string) *core.Violation {
+			rec := readProgress("signalling", shard)
+			b, _ := json.Marshal(rec)
+			return &core.Violation{Signature: "C12/process-died/signalling",
+				What:   "a signalling shard died; last input: " + trunc(string(b), 1500) + "\n" + trunc(out, 1500),
+				Replay: map[string]any{"family": "signalling", "case": rec}}
+		})
+		return
+	}
+	if shardPart() != "signalling" {
+		return
+	}
+	defer sig.Cleanup()
+	o := core.Opts()
+	prog := openProgress("signalling")
+	alpha := sigAlphabet()
+	roles := []string{"speaker", "oper"}
+	t0 := time.Now()
+	single := core.Sub{Name: "signalling/single-message", Exhaustive: true}
+	var outc core.Outcomes
+	n := 0
+	for _, role := range roles {
+		for _, prefix := range sigPrefixes {
+			for _, raw := range alpha {
+				n++
+				if n%o.Shards != o.Shard {
+					continue
+				}
+				if !core.TimeLeft() {
+					single.Exhaustive = false
+					continue
+				}
+				c := sigCase{role, prefix, []string{raw}}
+				prog.Set(c)
+				where, pan := sigRun(c)
+				single.Executions++
+				outc.Add(fmt.Sprintf("%s/%s/%v", prefix, msgClass(raw), pan != ""))
+				if pan != "" {
+					res.Violate(sigViolation(c, where, pan))
+				}
+				if len(single.Samples) < 2 {
+					single.Samples = append(single.Samples, map[string]any{"role": role, "state": prefix, "message": trunc(raw, 200)})
+				}
+			}
+		}
+	}
+	single.States, single.Transitions, single.Outcomes = single.Executions, single.Executions, outc.N()
+	single.Bound = fmt.Sprintf("full product: roles(%d) x states(%d) x messages(%d)", len(roles), len(sigPrefixes), len(alpha))
+	single.WallS = time.Since(t0).Seconds()
+	res.AddSub(single)
+
+	// sequences of two: the first message from a smaller alphabet of
+	// state-changing messages, the second from the whole alphabet
+	t1 := time.Now()
+	pairs := core.Sub{Name: "signalling/message-pairs", Exhaustive: true}
+	var firsts []string
+	for _, raw := range alpha {
+		cls := msgClass(raw)
+		switch cls {
+		case "join/join", "join/leave", "offer", "request", "close", "abort", "groupaction/record", "groupaction/lock", "useraction/unpresent":
+			if len(raw) < 3000 {
+				firsts = append(firsts, raw)
+			}
+		}
+	}
+	if core.Quick() {
+		// quick: only the unmodified base messages as first message
+		var f2 []string
+		for _, b := range sigBase() {
+			j, _ := json.Marshal(b)
+			switch msgClass(string(j)) {
+			case "join/join", "join/leave", "offer", "request", "close", "groupaction/record":
+				f2 = append(f2, string(j))
+			}
+		}
+		firsts = f2
+	}
+	var outp core.Outcomes
+	n = 0
+	pprefixes := core.Pick([]string{"never-joined", "joined", "refused-locked", "publishing"}, sigPrefixes)
+	for _, prefix := range pprefixes {
+		for _, f := range firsts {
+			for _, raw := range alpha {
+				n++
+				if n%o.Shards != o.Shard {
+					continue
+				}
+				if !core.TimeLeft() {
+					pairs.Exhaustive = false
+					continue
+				}
+				c := sigCase{"speaker", prefix, []string{f, raw}}
+				prog.Set(c)
+				where, pan := sigRun(c)
+				pairs.Executions++
+				outp.Add(fmt.Sprintf("%s/%s/%s/%v", prefix, msgClass(f), msgClass(raw), pan != ""))
+				if pan != "" {
+					res.Violate(sigViolation(c, where, pan))
+				}
+			}
+		}
+	}
+	pairs.States, pairs.Transitions, pairs.Outcomes = pairs.Executions, pairs.Executions, outp.N()
+	pairs.Bound = fmt.Sprintf("full product: states(%d) x first messages(%d) x second messages(%d)", len(pprefixes), len(firsts), len(alpha))
+	pairs.WallS = time.Since(t1).Seconds()
+	res.AddSub(pairs)
+}
 
 // replaySignalling re-runs one replay artefact of this family.
-func replaySignalling(sub string, artefact json.RawMessage) *core.Violation { return nil }
+func replaySignalling(sub string, artefact json.RawMessage) *core.Violation {
+	var a struct {
+		Case sigCase `json:"case"`
+	}
+	if err := json.Unmarshal(artefact, &a); err != nil {
+		return nil
+	}
+	defer sig.Cleanup()
+	where, pan := sigRun(a.Case)
+	if pan == "" {
+		return nil
+	}
+	v := sigViolation(a.Case, where, pan)
+	return &v
+}
